@@ -38,14 +38,28 @@ class Ref:
 
 
 class VecV:
-    """Vec / slice / array-by-reference with concrete length"""
-    __slots__ = ('items',)
+    """Vec / slice / array-by-reference with concrete length.  A Vec collected from an unordered source (hash container)
+    stays an unordered bag until its order is observed; then the order is forked symbolically (HOOKS['permute'])."""
+    __slots__ = ('_items', 'unordered')
 
-    def __init__(self, items=None):
-        self.items = list(items or [])
+    def __init__(self, items=None, unordered=False):
+        self._items = list(items or [])
+        self.unordered = unordered and len(self._items) > 1
+
+    @property
+    def items(self):
+        if self.unordered:
+            self.unordered = False
+            self._items[:] = HOOKS['permute'](self._items)
+        return self._items
+
+    @items.setter
+    def items(self, v):
+        self._items = v
+        self.unordered = False
 
     def __repr__(self):
-        return 'Vec' + repr(self.items)
+        return 'Vec' + repr(self._items)
 
 
 class SliceV:
@@ -293,7 +307,7 @@ def num(x):
 
 
 # the executor installs these hooks (they need path forking)
-HOOKS = {'branch': None, 'choose': None}
+HOOKS = {'branch': None, 'choose': None, 'permute': None}
 
 
 def branch(c):
@@ -643,9 +657,19 @@ def f_atan2(y, x):
             return Angle(Fraction(1, 2) if fy > 0 else Fraction(-1, 2))
     if branch(z3.And(x == 0, y == 0)):
         return Angle(0)
+    # atan2 is a function: the same arguments give the same angle (one atom per distinct argument pair on a path)
+    key = 'atan2:' + zsimp(y).sexpr() + '|' + zsimp(x).sexpr() if is_sym(y) or is_sym(x) else None
+    if key and key in ctx().angle_atoms:
+        a = ctx().angle_atoms[key]
+        return Angle(0, {a.name: (a, 1)}, a.shadow)
     r = norm_of([x, y])
+    if is_sym(r):
+        ctx().known_pos.append(zsimp(r))
     c, s = f_div(x, r), f_div(y, r)
-    return new_inverse_trig_atom('atan2', c, s, -PI_Z, PI_Z, lambda th, cv, sv: [th > -PI_Z])
+    ang = new_inverse_trig_atom('atan2', c, s, -PI_Z, PI_Z, lambda th, cv, sv: [th > -PI_Z])
+    if key:
+        ctx().angle_atoms[key] = list(ang.terms.values())[0][0]
+    return ang
 
 
 def f_asin(q):
@@ -708,12 +732,18 @@ def f_rem(a, m):
         if isinstance(a, Angle) or isinstance(m, Angle):
             return to_angle(a).with_turns(-k) if fm == 2 * PI_F else to_angle(z3.RealVal(str(r)))
         return z3.RealVal(str(r))
-    k = ctx().fresh('k', 'int')
-    mz = z3.RealVal(str(abs(fm)))
-    r = ctx().fresh('rem')
-    facts = [av == z3.ToReal(k) * mz + r, z3.Implies(av >= 0, z3.And(r >= 0, r < mz)), z3.Implies(av < 0, z3.And(r <= 0, r > -mz))]
-    ctx().add_def(r, facts)
-    ctx().add_def(k, facts)
+    # fmod is a function: one (k, r) pair per distinct (argument, modulus) on a path
+    mkey = 'fmod:' + zsimp(av).sexpr() + '|' + str(fm)
+    if mkey in ctx().angle_atoms:
+        r = ctx().angle_atoms[mkey]
+    else:
+        k = ctx().fresh('k', 'int')
+        mz = z3.RealVal(str(abs(fm)))
+        r = ctx().fresh('rem')
+        facts = [av == z3.ToReal(k) * mz + r, z3.Implies(av >= 0, z3.And(r >= 0, r < mz)), z3.Implies(av < 0, z3.And(r <= 0, r > -mz))]
+        ctx().add_def(r, facts)
+        ctx().add_def(k, facts)
+        ctx().angle_atoms[mkey] = r
     if (isinstance(a, Angle) or isinstance(m, Angle)) and abs(fm) == 2 * PI_F:
         ang = to_angle(a)
         return Angle(ang.pi, ang.terms, r)       # same direction, shadow reduced by whole turns
